@@ -888,6 +888,29 @@ fn replay(ctx: &Ctx, sess: &mut Session, w: &mut World, skel: &(String, String),
             let mut rng = Rng::new(ctx.seed);
             wasm_roundtrip(sess, &mut rng, 30);
         }
+        "long" => {
+            let seed = v["case_seed"].as_u64().unwrap_or(ctx.seed);
+            let (recs, cuts, _) = w25_gen_long_case(seed, w);
+            eval_roundtrip(sess, w, &recs, &cuts, "replay", v.clone());
+            let cfgs = w.cfgs.clone();
+            eval_sum(sess, &recs, &cfgs, "replay", v.clone());
+        }
+        "edge-docs" => {
+            let (recs, cuts, _) = w25_edge_doc_case(w);
+            eval_roundtrip(sess, w, &recs, &cuts, "replay", v.clone());
+            let cfgs = w.cfgs.clone();
+            eval_sum(sess, &recs, &cfgs, "replay", v.clone());
+        }
+        "wasm-ll" => {
+            let mut rng = Rng::new(ctx.seed);
+            for _ in 0..4 {
+                w25_wasm_long_lived(sess, &mut rng, 24);
+            }
+        }
+        "cli" => {
+            let mut rng = Rng::new(ctx.seed);
+            w25_cli_summaries(sess, ctx, w, &mut rng, 9);
+        }
         _ => {
             let ss = vec![text_of(v)];
             if let Some(log) = eval_wlog(sess, &ss, skel, "replay") {
@@ -972,6 +995,8 @@ fn server_sessions(sess: &mut Session, ctx: &Ctx, only: Option<Vec<String>>) {
 }
 
 pub fn run(ctx: &Ctx) {
+    // (w25) the server streams below point HOME at a temp dir; cargo (CLI stream) needs the real one
+    let _ = W25_ORIG_HOME.set(std::env::var("HOME").ok());
     let mut sess = Session::new(ctx);
     let mut rng = Rng::new(ctx.seed);
     let thorough = ctx.tier == Tier::Thorough;
@@ -984,9 +1009,19 @@ pub fn run(ctx: &Ctx) {
             sess.finish("replay of one recorded server session", false, json!({}));
             return;
         }
+        if v["kind"] == "server-ca" {
+            w25_server_codeaction_sessions(&mut sess, ctx, &mut Rng::new(ctx.seed ^ 0x19ca));
+            sess.nontrivial("replay-a");
+            sess.nontrivial("replay-b");
+            sess.finish("replay of the code-action server sessions", false, json!({}));
+            return;
+        }
     } else {
         // first, while this is the only thread (it sets HOME)
         server_sessions(&mut sess, ctx, None);
+        let t0 = std::time::Instant::now();
+        w25_server_codeaction_sessions(&mut sess, ctx, &mut Rng::new(ctx.seed ^ 0x19ca));
+        sess.add("w25-ms:server-codeaction-sessions", t0.elapsed().as_millis() as u64);
     }
     let dir = std::env::temp_dir().join(format!("hv-c19-{}-{}", std::process::id(), ctx.seed));
     std::fs::create_dir_all(&dir).expect("temp dir");
@@ -1174,10 +1209,469 @@ pub fn run(ctx: &Ctx) {
     for _ in 0..(if thorough { 6 } else { 2 }) {
         wasm_roundtrip(&mut sess, &mut rng, if thorough { 60 } else { 25 });
     }
+    // w25: lines longer than Stats::read's 8 KiB buffer, many records / many sessions, degenerate documents
+    let w25_t0 = std::time::Instant::now();
+    {
+        let (recs, cuts, texts) = w25_edge_doc_case(&w);
+        let input = json!({"stream": "edge-docs", "texts": texts});
+        eval_roundtrip(&mut sess, &mut w, &recs, &cuts, "edge-docs", input.clone());
+        let cfgs = w.cfgs.clone();
+        eval_sum(&mut sess, &recs, &cfgs, "edge-docs", input);
+    }
+    for _ in 0..(if thorough { 400 } else { 40 }) {
+        let case_seed = rng.next();
+        let (recs, cuts, texts) = w25_gen_long_case(case_seed, &mut w);
+        let input = json!({"stream": "long", "case_seed": case_seed, "texts": texts});
+        let longest = recs.iter().filter_map(|r| serde_json::to_string(r).ok()).map(|l| l.len()).max().unwrap_or(0);
+        sess.count(if longest > 8192 { "long:line>8KiB" } else if longest >= 8185 { "long:line-at-8KiB-boundary" } else { "long:short-lines" });
+        sess.count(&format!("long:records-{}", if recs.len() >= 60 { "60+" } else { "<60" }));
+        eval_roundtrip(&mut sess, &mut w, &recs, &cuts, "long", input.clone());
+        let cfgs = w.cfgs.clone();
+        eval_sum(&mut sess, &recs, &cfgs, "long", input);
+    }
+    sess.add("w25-ms:edge-docs+long", w25_t0.elapsed().as_millis() as u64);
+    let w25_t0 = std::time::Instant::now();
+    // w25: a long-lived harper-wasm Linter (every dialect, Markdown and plain, import in the middle)
+    for _ in 0..(if thorough { 12 } else { 4 }) {
+        w25_wasm_long_lived(&mut sess, &mut rng, if thorough { 40 } else { 16 });
+    }
+    sess.add("w25-ms:wasm-long-lived", w25_t0.elapsed().as_millis() as u64);
+    let w25_t0 = std::time::Instant::now();
+    // w25: the real harper-cli executable summarising logs Stats::write produced
+    w25_cli_summaries(&mut sess, ctx, &mut w, &mut rng, if thorough { 32 } else { 4 });
+    sess.add("w25-ms:cli-summaries(incl. cargo up-to-date check)", w25_t0.elapsed().as_millis() as u64);
     let _ = std::fs::remove_dir_all(&dir);
     sess.finish(
-        "corpus (incl. the recorded `1e999` witness); exhaustively: escaping of all strings of ≤3 chars over {a \" \\ \\n \\r \\t NUL 0x1F DEL é U+2028 😀} and of every char < 0x30, `lines` of all strings of ≤5 (thorough ≤7) chars over {a \\n \\r}, parsing of all JSON string literals with bodies of ≤3 (thorough ≤4) chars over {\" \\ u n / a \\n 0x01 é space} and a grid of \\uXXXX escapes (both hex cases, surrogates); random: strings over all of Unicode (controls, line separators, astral), serde_json's own output mutated, logs of skeleton records through the real Stats::write/read incl. CRLF/blank-line/truncation/join mutations, lists of real Records (contexts via RecordKind::from_lint on documents with hostile characters and number spellings, directly built tokens of every kind, config updates with hostile keys; extreme timestamps) written in 1–3 append sessions to a file opened like save_stats and read back, their summaries, harper-wasm export/import; the server's record path (HarperRecordLint for a record of every lint kind the rules produce + a configuration update, two sessions, shutdown → save_stats, Stats::read of the file). Non-trivial = escaping changed the string / more than one line or a CR / a record with hostile content / a summary with ≥2 kinds or a misspelt word.",
+        "w25: + records from empty / whitespace-only / line-break-only documents; lines longer than the 8 KiB read buffer and at its boundary, 60–300 records in up to 6 append sessions; a long-lived harper_wasm::Linter of every dialect (apply, import in the middle, apply; Markdown and plain); the editor's record path (codeAction → HarperRecordLint with the embedded arguments, two documents open at once, default and explicit configuration incl. statsPath / null / unknown keys, two sessions); the real harper-cli summarize-lint-record on written logs. corpus (incl. the recorded `1e999` witness); exhaustively: escaping of all strings of ≤3 chars over {a \" \\ \\n \\r \\t NUL 0x1F DEL é U+2028 😀} and of every char < 0x30, `lines` of all strings of ≤5 (thorough ≤7) chars over {a \\n \\r}, parsing of all JSON string literals with bodies of ≤3 (thorough ≤4) chars over {\" \\ u n / a \\n 0x01 é space} and a grid of \\uXXXX escapes (both hex cases, surrogates); random: strings over all of Unicode (controls, line separators, astral), serde_json's own output mutated, logs of skeleton records through the real Stats::write/read incl. CRLF/blank-line/truncation/join mutations, lists of real Records (contexts via RecordKind::from_lint on documents with hostile characters and number spellings, directly built tokens of every kind, config updates with hostile keys; extreme timestamps) written in 1–3 append sessions to a file opened like save_stats and read back, their summaries, harper-wasm export/import; the server's record path (HarperRecordLint for a record of every lint kind the rules produce + a configuration update, two sessions, shutdown → save_stats, Stats::read of the file). Non-trivial = escaping changed the string / more than one line or a CR / a record with hostile content / a summary with ≥2 kinds or a misspelt word.",
         true,
         json!({"exhaustive_scope": format!("esc: len ≤3 over 12 chars; lines: len ≤{} over 3 chars; unq: body len ≤{} over 10 chars", lmax, umax)}),
     );
+}
+
+// ---------------------------------------------------------------------------------------------
+// w25 additions: missing call sites, input families and configurations (oracle-only streams)
+// ---------------------------------------------------------------------------------------------
+
+static W25_ORIG_HOME: std::sync::OnceLock<Option<String>> = std::sync::OnceLock::new();
+
+/// per-kind counts of the lint records of a list, by `LintKind`'s `Display` text
+fn w25_kind_counts(recs: &[Record]) -> std::collections::BTreeMap<String, u32> {
+    let mut m = std::collections::BTreeMap::new();
+    for r in recs {
+        if let RecordKind::Lint { kind, .. } = &r.kind {
+            *m.entry(kind.to_string()).or_insert(0) += 1;
+        }
+    }
+    m
+}
+
+/// Family `long`: records whose serialised line is longer than the 8 KiB buffer `Stats::read` puts
+/// around its reader (multi-byte characters and escapes straddle the refills), and lists of many
+/// records written in up to 6 append sessions (several of them empty).
+fn w25_gen_long_case(case_seed: u64, w: &mut World) -> (Vec<Record>, Vec<usize>, Vec<String>) {
+    let mut rng = Rng(case_seed);
+    let mut recs = vec![];
+    let mut texts = vec![];
+    match rng.below(4) {
+        // one very long token among short ones
+        0 => {
+            let n = rng.range(2500, 9000);
+            let content: String = (0..n).map(|_| random_char(&mut rng)).collect();
+            let mut context = vec![FatStringToken { content: random_string(&mut rng, 4), kind: TokenKind::Unlintable }];
+            context.push(FatStringToken { content, kind: random_token_kind(&mut rng, w) });
+            context.push(FatStringToken { content: "\n".into(), kind: TokenKind::Newline(1) });
+            recs.push(mk_record(RecordKind::Lint { kind: *rng.pick(&KINDS), context }, 1, 1));
+            recs.push(mk_record(RecordKind::LintConfigUpdate(w.cfgs[rng.below(w.cfgs.len())].clone()), 2, 2));
+        }
+        // a line of exactly 8190..8194 bytes before the line feed, made of 1-, 2-, 3- or 4-byte characters
+        1 => {
+            let c = *rng.pick(&['a', 'é', '\u{2028}', '😀', '"', '\n']);
+            let probe = |k: usize| -> usize {
+                let s: String = std::iter::repeat(c).take(k).collect();
+                serde_json::to_string(&skeleton_record(&s)).map(|l| l.len()).unwrap_or(0)
+            };
+            let target = 8188 + rng.below(8);
+            let mut k = 1;
+            while probe(k) < target && k < 9000 {
+                k += 1;
+            }
+            for d in 0..3usize {
+                let s: String = std::iter::repeat(c).take(k.saturating_sub(1) + d).collect();
+                recs.push(skeleton_record(&s));
+            }
+        }
+        // a long real document, one lint over all of it (context = every token), Markdown or plain
+        2 => {
+            let sents = crate::corpus::sentences();
+            let mut text = String::new();
+            for _ in 0..rng.range(40, 120) {
+                text.push_str(&sents[rng.below(sents.len())]);
+                text.push_str(*rng.pick(&[" ", "\n", "\r\n", "\n\n", " \"q\" ", "\t", " 😀 ", "\u{2028}"]));
+            }
+            texts.push(trunc(&text, 200));
+            let dict = w.dict.clone();
+            let markdown = rng.chance(1, 2);
+            if let Ok(doc) = guarded(|| if markdown { Document::new_markdown_default(&text, &*dict) } else { Document::new_plain_english(&text, &*dict) }) {
+                let len = doc.get_full_content().len();
+                let lint = Lint { span: Span::new(0, len), lint_kind: *rng.pick(&KINDS), ..Default::default() };
+                if let Ok(kind) = guarded(|| RecordKind::from_lint(&lint, &doc)) {
+                    recs.push(mk_record(kind, 3, 3));
+                }
+            }
+        }
+        // many small records
+        _ => {
+            let n = rng.range(60, 300);
+            for i in 0..n {
+                let kind = if i % 17 == 5 {
+                    RecordKind::LintConfigUpdate(w.cfgs[rng.below(w.cfgs.len())].clone())
+                } else {
+                    RecordKind::Lint {
+                        kind: *rng.pick(&KINDS),
+                        context: vec![FatStringToken { content: random_string(&mut rng, 6), kind: if i % 3 == 0 { TokenKind::Word(None) } else { TokenKind::Unlintable } }],
+                    }
+                };
+                recs.push(mk_record(kind, i as i64, i as u128));
+            }
+        }
+    }
+    let mut cuts = vec![];
+    for _ in 0..rng.below(6) {
+        cuts.push(rng.below(recs.len() + 1));
+    }
+    cuts.sort();
+    (recs, cuts, texts)
+}
+
+/// Family `edge-docs`: records built by `RecordKind::from_lint` on empty, whitespace-only and
+/// line-break-only documents (plain and Markdown), with empty and whole-document spans.
+fn w25_edge_doc_case(w: &World) -> (Vec<Record>, Vec<usize>, Vec<String>) {
+    let texts = ["", " ", "\n", "\r\n", "\r", "\t \t", "\u{feff}", "\u{a0}\u{2028}", "\n\n\n", "\u{3000}ａｂｃ\u{301}", "e\u{301}\u{200d}👩\u{200d}👩\u{200d}👧"];
+    let mut recs = vec![];
+    for (i, t) in texts.iter().enumerate() {
+        for markdown in [false, true] {
+            let Ok(doc) = guarded(|| if markdown { Document::new_markdown_default(t, &*w.dict) } else { Document::new_plain_english(t, &*w.dict) }) else { continue };
+            let len = doc.get_full_content().len();
+            for span in [Span::new(0, 0), Span::new(0, len), Span::new(len, len)] {
+                let lint = Lint { span, lint_kind: KINDS[i % 10], ..Default::default() };
+                if let Ok(kind) = guarded(|| RecordKind::from_lint(&lint, &doc)) {
+                    recs.push(mk_record(kind, i as i64, (i * 2 + markdown as usize) as u128));
+                }
+            }
+        }
+    }
+    let n = recs.len();
+    (recs, vec![0, n / 3, n / 3, n], texts.iter().map(|s| s.to_string()).collect())
+}
+
+/// `harper_wasm::Linter` as a LONG-LIVED instance, every dialect, Markdown and plain: suggestions
+/// applied, a foreign log imported, more suggestions applied — the export is (own records so far) ++
+/// (imported log) ++ (own later records), each applied suggestion is one record of the lint's kind,
+/// and summarising the export counts each applied lint exactly once.
+fn w25_wasm_long_lived(sess: &mut Session, rng: &mut Rng, n_texts: usize) {
+    use harper_wasm::{Dialect as WDialect, Language, Linter as WLinter};
+    let dialects = [WDialect::American, WDialect::British, WDialect::Australian, WDialect::Canadian];
+    let di = rng.below(4);
+    let mut linter = WLinter::new(dialects[di]);
+    sess.count(&format!("wasm-ll:dialect-{}", di));
+    let sents = crate::corpus::sentences();
+    // a foreign log: real records written by Stats::write
+    let dict = FstDictionary::curated();
+    let mut foreign = vec![];
+    for (j, t) in ["A \"quoted\"\r\nline.", "Tab\there 😀."].iter().enumerate() {
+        let doc = Document::new_plain_english(t, &*dict);
+        let len = doc.get_full_content().len();
+        let lint = Lint { span: Span::new(0, len), lint_kind: KINDS[(j * 3 + di) % 10], ..Default::default() };
+        foreign.push(mk_record(RecordKind::from_lint(&lint, &doc), 10 + j as i64, 500 + j as u128));
+    }
+    let Ok(foreign_bytes) = write_mem(&foreign) else { return };
+    let foreign_file = String::from_utf8(foreign_bytes).unwrap_or_default();
+    let mut applied_kinds: Vec<String> = vec![]; // LintKind's key string of each applied lint, in order
+    let mut exports: Vec<String> = vec![linter.generate_stats_file()];
+    let mut import_at = None;
+    for i in 0..n_texts {
+        if i == n_texts / 2 {
+            let before = linter.generate_stats_file();
+            match guarded(|| linter.import_stats_file(foreign_file.clone())) {
+                Ok(Ok(())) => {}
+                _ => {
+                    sess.o();
+                    sess.fail("wasm-import-error", "import_stats_file rejects a log Stats::write produced".into(), json!({"stream": "wasm-ll", "file": foreign_file}), None);
+                    return;
+                }
+            }
+            import_at = Some(before);
+        }
+        let markdown = rng.chance(1, 2);
+        let mut text = sents[rng.below(sents.len())].clone();
+        match rng.below(4) {
+            0 => text = format!("\"{}\"\r\n\t{} 😀\u{1}", text, sents[rng.below(sents.len())]),
+            1 => text = format!("# Teh {}\n\n* an item , here\r\n* {}\n", text, text),
+            2 => text = format!("{} {} {}", text, text, text), // the same construct several times
+            _ => {}
+        }
+        sess.count(if markdown { "wasm-ll:markdown" } else { "wasm-ll:plain" });
+        let lang = if markdown { Language::Markdown } else { Language::Plain };
+        let Ok(lints) = guarded(|| linter.lint(text.clone(), lang)) else { continue };
+        for l in lints.iter().take(3) {
+            if let Some(s) = l.suggestions().first() {
+                if guarded(|| linter.apply_suggestion(text.clone(), l, s)).is_ok() {
+                    applied_kinds.push(l.lint_kind());
+                    exports.push(linter.generate_stats_file());
+                }
+            }
+        }
+    }
+    sess.o();
+    sess.add("wasm-ll:applied", applied_kinds.len() as u64);
+    let last = exports.last().cloned().unwrap_or_default();
+    let input = json!({"stream": "wasm-ll", "file": trunc(&last, 4000)});
+    // every export extends the previous one, except across the import, where the imported log is spliced in
+    let mut ok_prefix = true;
+    for p in exports.windows(2) {
+        let grows = p[1].len() > p[0].len() && p[1].ends_with('\n');
+        let extends = p[1].starts_with(p[0].as_str());
+        let across_import = import_at.as_ref().is_some_and(|b| b == &p[0]) && p[1].starts_with(&format!("{}{}", p[0], foreign_file));
+        if !grows || !(extends || across_import) {
+            ok_prefix = false;
+        }
+    }
+    if !ok_prefix {
+        sess.fail("wasm-export-not-append", "an export of a long-lived harper_wasm::Linter is not the previous export plus the new record(s)".into(), input.clone(), None);
+    }
+    if let Some(before) = &import_at {
+        if !last.starts_with(&format!("{}{}", before, foreign_file)) {
+            sess.fail("wasm-import-not-concatenation", "after import_stats_file the export is not (records so far) ++ (imported log) ++ (later records)".into(), input.clone(), None);
+        }
+    }
+    match guarded(|| Stats::read(&mut Cursor::new(last.as_bytes()))) {
+        Ok(Ok(st)) => {
+            let own: Vec<&Record> = st.records.iter().filter(|r| !foreign.iter().any(|f| f.uuid == r.uuid)).collect();
+            let own_kinds: Vec<String> = own
+                .iter()
+                .map(|r| match &r.kind {
+                    RecordKind::Lint { kind, .. } => kind.to_string_key(),
+                    _ => "config".to_string(),
+                })
+                .collect();
+            if own_kinds != applied_kinds {
+                sess.fail("wasm-applied-not-recorded-once", format!("{} suggestions applied (kinds {:?}), the export holds own records of kinds {:?}", applied_kinds.len(), applied_kinds, own_kinds), input.clone(), None);
+            }
+            let imported = if import_at.is_some() { foreign.len() } else { 0 };
+            let s = st.summarize();
+            let want = (applied_kinds.len() + imported) as u32;
+            let sum: u32 = s.lint_counts.values().sum();
+            if s.total_applied != want || sum != want {
+                sess.fail("wasm-summary-miscount", format!("{} applied + {} imported lint records, summary total {} / counters sum {}", applied_kinds.len(), imported, s.total_applied, sum), input, None);
+            } else if applied_kinds.len() > 1 {
+                sess.nontrivial(&format!("wasm-ll|{}", last.len()));
+            }
+        }
+        Ok(Err(e)) => sess.fail("wasm-export-unreadable", format!("Stats::read rejects generate_stats_file's output: {}", e), input, None),
+        Err(_) => sess.fail("panic", "Stats::read panicked on generate_stats_file's output".into(), input, None),
+    }
+}
+
+/// The EDITOR's record path through the server: two documents open at once (plain text and Markdown,
+/// hostile characters, the same mistake several times), `textDocument/codeAction` at every published
+/// diagnostic, the `HarperRecordLint` command of the first quick fix executed with exactly the
+/// arguments `lint_to_code_actions` embedded, `shutdown` (→ `save_stats`); a second session with an
+/// explicit configuration (statsPath / null / unknown keys). Every statistics file (located by the
+/// real `Config::from_lsp_config`) must read back exactly the record kinds that were sent to it, in
+/// order, session after session; its summary counts each of them once.
+fn w25_server_codeaction_sessions(sess: &mut Session, ctx: &Ctx, rng: &mut Rng) {
+    use crate::lsclient::*;
+    let home = ctx.out.join("c19-home");
+    let (_, _, default_stats) = set_home(&home);
+    let _ = std::fs::remove_file(&default_stats);
+    let configured = home.join("configured dir").join("stats ü.txt");
+    let _ = std::fs::remove_file(&configured);
+    let sents = crate::corpus::sentences();
+    let pick3 = |rng: &mut Rng, sep: &str| -> String { (0..3).map(|_| sents[rng.below(sents.len())].clone()).collect::<Vec<_>>().join(sep) };
+    let docs: Vec<(String, &str, String)> = vec![
+        ("file:///c19-ca/a%20b/notes%20%C3%BC.txt".into(), "plaintext", format!("This is an test of \"teh\" thing.\r\nAnd an apple , see 😀 teh\tteh and teh.\r\nIt was the\r\nthe end, and it is\tis so. She said \"hello\" \"hello\" twice.\r\n{}\n", pick3(rng, "\r\n"))),
+        ("file:///c19-ca/readme.md".into(), "markdown", format!("# Teh titel\n\nThere is an problm here , and `code` an apple.\n\n* an item with teh error\n* an item with teh error\n\n{}\n", pick3(rng, "\n\n"))),
+        ("file:///c19-ca/third.txt".into(), "plaintext", format!("{} It costs 5$ and i like it alot.\u{2028}Teh \u{1}end.", pick3(rng, " "))),
+    ];
+    let cfgs = [
+        json!({"harper-ls": {}}),
+        json!({"harper-ls": {"statsPath": configured.to_string_lossy(), "userDictPath": "", "linters": {"SpellCheck": true, "NoSuchRule": null}, "unknownKey": 7, "codeActions": {"ForceStable": true}}}),
+    ];
+    // (statistics file the session's configuration resolves to, record kinds sent, in order)
+    let mut sent: Vec<(PathBuf, Vec<String>)> = vec![];
+    let mut hostile = 0u64;
+    let r: Result<(), LsError> = (|| {
+        for (si, cfg) in cfgs.iter().enumerate() {
+            let path = crate::config::Config::from_lsp_config(cfg.clone()).map(|c| c.stats_path).unwrap_or(default_stats.clone());
+            let mut kinds = vec![];
+            let mut ls = LsSession::start()?;
+            ls.initialize(cfg)?;
+            let open: Vec<&(String, &str, String)> = if si == 0 { docs.iter().take(2).collect() } else { docs.iter().skip(1).collect() };
+            for (uri, lang, text) in &open {
+                ls.notify("textDocument/didOpen", did_open(uri, lang, text))?;
+            }
+            ls.quiesce(cfg)?;
+            for (uri, _, _) in &open {
+                let diags: Vec<Value> = ls.last_publication(uri).and_then(|d| d.as_array().cloned()).unwrap_or_default();
+                for d in diags.iter().take(if si == 0 { 14 } else { 8 }) {
+                    let start = d["range"]["start"].clone();
+                    let params = json!({"textDocument": {"uri": uri}, "range": {"start": start, "end": start}, "context": {"diagnostics": []}});
+                    let resp = ls.request_sync("textDocument/codeAction", params, cfg)?;
+                    let first = resp["result"].as_array().and_then(|a| a.iter().find(|x| x["command"]["command"] == "HarperRecordLint").cloned());
+                    let Some(action) = first else { continue };
+                    let args = action["command"]["arguments"].clone();
+                    if let Some(k) = args[0].as_str() {
+                        if k.contains("\\n") || k.contains("\\r") || k.contains("\\\"") || k.contains("\\t") || k.chars().any(|c| c as u32 > 0xFFFF) {
+                            hostile += 1;
+                        }
+                        kinds.push(k.to_string());
+                    }
+                    ls.request_sync("workspace/executeCommand", json!({"command": "HarperRecordLint", "arguments": args}), cfg)?;
+                }
+            }
+            ls.shutdown(cfg)?;
+            sent.push((path, kinds));
+        }
+        Ok(())
+    })();
+    sess.monitor("the in-process language server completed the C19 code-action sessions", r.is_ok());
+    if r.is_err() {
+        return;
+    }
+    sess.add("server-ca:records-sent", sent.iter().map(|s| s.1.len() as u64).sum());
+    sess.add("server-ca:records-with-hostile-context", hostile);
+    sess.monitor("the code-action sessions sent at least one record per session", sent.iter().all(|s| !s.1.is_empty()));
+    let mut files: Vec<PathBuf> = sent.iter().map(|s| s.0.clone()).collect();
+    files.sort();
+    files.dedup();
+    sess.count(&format!("server-ca:statistics-files-{}", files.len()));
+    for f in files {
+        let want_s: Vec<String> = sent.iter().filter(|s| s.0 == f).flat_map(|s| s.1.iter().cloned()).collect();
+        sess.o();
+        let input = json!({"kind": "server-ca", "file": f, "record_kinds": want_s});
+        let back = guarded(|| std::fs::File::open(&f).map_err(|e| e.to_string()).and_then(|h| Stats::read(&mut std::io::BufReader::new(h)).map_err(|e| e.to_string())));
+        match back {
+            Ok(Ok(st)) => {
+                let got: Vec<Value> = st.records.iter().map(|r| serde_json::to_value(&r.kind).unwrap()).collect();
+                let want: Vec<Value> = want_s.iter().map(|k| serde_json::from_str(k).unwrap_or(Value::Null)).collect();
+                if got != want {
+                    let first = got.iter().zip(want.iter()).position(|(a, b)| a != b).unwrap_or(got.len().min(want.len()));
+                    sess.fail("server-codeaction-records-differ", format!("{} HarperRecordLint commands taken from code actions were executed, {:?} reads back {} records; first difference at #{}", want.len(), f, got.len(), first), input, None);
+                    continue;
+                }
+                let s = st.summarize();
+                let sum: u32 = s.lint_counts.values().sum();
+                if s.total_applied as usize != want.len() || sum as usize != want.len() {
+                    sess.fail("server-codeaction-summary-miscount", format!("{} lint records sent, summary total {} / counters sum {}", want.len(), s.total_applied, sum), input, None);
+                    continue;
+                }
+                sess.nontrivial(&format!("server-ca|{}", f.display()));
+                sess.count("origin:server-codeaction-sessions");
+            }
+            Ok(Err(e)) => sess.fail("read-error", format!("the statistics file written by the server's save_stats cannot be read back: {}", e), input, None),
+            Err(_) => sess.fail("panic", "Stats::read panicked on the server's statistics file".into(), input, None),
+        }
+    }
+}
+
+/// The command-line call site: the real `harper-cli summarize-lint-record <file>` (built from the
+/// repository into the harness's own target directory, as C13 does) on logs written by the real
+/// `Stats::write` in several append sessions. The `LintKind` section of its report must carry each
+/// kind with exactly the number of lint records of that kind (each applied lint counted once).
+fn w25_cli_summaries(sess: &mut Session, ctx: &Ctx, w: &mut World, rng: &mut Rng, n: usize) {
+    let target = PathBuf::from(env!("CARGO_MANIFEST_DIR")).join("target").join("lsbin");
+    let mut cargo = std::process::Command::new("cargo");
+    if let Some(Some(h)) = W25_ORIG_HOME.get() {
+        cargo.env("HOME", h).env_remove("XDG_CONFIG_HOME").env_remove("XDG_DATA_HOME");
+    }
+    let built = cargo
+        .args(["build", "--offline", "--locked", "-p", "harper-cli", "--manifest-path", "/repo/Cargo.toml", "--target-dir"])
+        .arg(&target)
+        .env("CARGO_NET_OFFLINE", "true")
+        .stdout(std::process::Stdio::null())
+        .stderr(std::process::Stdio::null())
+        .status()
+        .map(|s| s.success())
+        .unwrap_or(false);
+    sess.count(if built { "cli:built" } else { "cli:not-built(stream skipped)" });
+    if !built {
+        return;
+    }
+    let bin = target.join("debug").join("harper-cli");
+    let dir = ctx.out.join("c19-cli");
+    let _ = std::fs::create_dir_all(&dir);
+    // the logs first, then the executable on all of them in parallel (a debug harper-cli takes ~2 s to start)
+    let mut cases: Vec<(u64, usize, Vec<Record>, PathBuf)> = vec![];
+    for i in 0..n {
+        let case_seed = rng.next();
+        let (mut recs, cuts, _) = if i % 3 == 2 { w25_gen_long_case(case_seed, w) } else { gen_case(case_seed, w, false) };
+        if i == 0 {
+            recs.clear(); // the empty log
+        }
+        if i == 1 {
+            // several records in the same second, one kind thrice
+            for j in 0..3 {
+                recs.push(mk_record(RecordKind::Lint { kind: LintKind::Spelling, context: vec![FatStringToken { content: "teh".into(), kind: TokenKind::Word(None) }] }, 1_700_000_000, 900 + j));
+            }
+        }
+        // the recorded defect's input class (non-finite Number: the log cannot be read) is judged by eval_roundtrip
+        recs.retain(|r| !has_nonfinite(r));
+        let cuts: Vec<usize> = cuts.into_iter().map(|c| c.min(recs.len())).collect();
+        let file = dir.join(format!("log {}.txt", i));
+        let _ = std::fs::remove_file(&file);
+        let mut bounds = vec![0];
+        bounds.extend_from_slice(&cuts);
+        bounds.push(recs.len());
+        let mut ok = true;
+        for b in bounds.windows(2) {
+            ok &= append_session(&file, &recs[b[0]..b[1]]).is_ok();
+        }
+        if ok {
+            cases.push((case_seed, i, recs, file));
+        }
+    }
+    let outs = par_map(cases.len(), 8, |j| std::process::Command::new(&bin).arg("summarize-lint-record").arg(&cases[j].3).output().ok());
+    for ((case_seed, i, recs, _), out) in cases.into_iter().zip(outs.into_iter()) {
+        let Some(out) = out else { continue };
+        sess.o();
+        sess.count("origin:cli-summary");
+        let input = json!({"stream": "cli", "case_seed": case_seed, "index": i});
+        let stdout = String::from_utf8_lossy(&out.stdout).to_string();
+        if !out.status.success() {
+            sess.fail("cli-summary-error", format!("harper-cli summarize-lint-record fails on a log Stats::write produced: {}", trunc(&String::from_utf8_lossy(&out.stderr), 300)), input, None);
+            continue;
+        }
+        // `LintKind` counts / ===== / <kind>\t<count>* / Misspelling counts / …
+        let mut got = std::collections::BTreeMap::new();
+        let mut shape_ok = true;
+        let mut lines = stdout.lines();
+        shape_ok &= lines.next() == Some("`LintKind` counts");
+        shape_ok &= lines.next().is_some_and(|l| !l.is_empty() && l.chars().all(|c| c == '='));
+        let mut closed = false;
+        for l in lines {
+            if l == "Misspelling counts" {
+                closed = true;
+                break;
+            }
+            match l.rsplit_once('\t') {
+                Some((k, c)) => match c.parse::<u32>() {
+                    Ok(c) if !got.contains_key(k) => {
+                        got.insert(k.to_string(), c);
+                    }
+                    _ => shape_ok = false,
+                },
+                None => shape_ok = false,
+            }
+        }
+        sess.monitor("harper-cli summarize-lint-record prints the `LintKind` section as <kind>TAB<count> lines", shape_ok && closed);
+        if !(shape_ok && closed) {
+            continue;
+        }
+        let want = w25_kind_counts(&recs);
+        if got != want {
+            sess.fail("cli-summary-miscount", format!("harper-cli summarize-lint-record reports {:?}; the log holds lint records {:?}", got, want), input, None);
+        } else if want.len() > 1 {
+            sess.nontrivial(&format!("cli|{}", case_seed));
+        }
+    }
 }
